@@ -1,7 +1,7 @@
 SPECIFICATION Spec
 CONSTANTS
-  Focus = "stmt"
-  Families = {"leaf","top","stmt","assign","incdec","opassign","define","if","for","range","switch","typeswitch","select","label","defergo","return","block","declstmt","send","exprstmt","empty","branch","seq"}
+  Focus = "stmt-nest"
+  Families = {"leaf","top","stmt","assign","if","for","range","switch","select","label","branch","return","block","send"}
   Budget = 3
   LayoutMoves = 0
   LayoutKinds = {}
